@@ -338,8 +338,9 @@ def rule_driver(prog, rep):
     mid0 = mk_div(mk_add((UP, LO)), C(2))
     ok = inits[0] == "tuple" and len(inits[1]) == 2 and inits[1][1] == C(0) and inits[1][0][0] == "call" \
         and inits[1][0][1] == ("ext", "jax.numpy.full") and equal(dict(inits[1][0][3]).get("fill_value"), mid0) \
-        and dict(inits[1][0][3]).get("shape") == N
-    rep.check(ok, "C10.driver", site, "driver:init", "start = (full(length, midpoint), 0)", f"initial carry {show(inits, 200)}")
+        and dict(inits[1][0][3]).get("shape") == N and set(dict(inits[1][0][3])) <= {"fill_value", "shape"}
+    rep.check(ok, "C10.driver", site, "driver:init", "start = (full(length, midpoint), 0), in the midpoint's own (floating) dtype",
+              f"initial carry {show(inits, 200)} (a dtype taken from the bounds makes the working vector integer for integer bounds)")
     lvl = lam_level(lam)
     vec, idx = ("bv", lvl, 1), ("bv", lvl, 2)
     bodies = lam[2][1]
